@@ -4,7 +4,8 @@
 // C04: batches of generated scripts are run by testscript.RunT in a child process of this binary
 // (built with -race) with real goroutine parallelism, several GOMAXPROCS / parallelism settings and
 // injected start delays, with and without TestWork / WorkdirRoot / -testwork, as an unprivileged
-// user when possible.  Direct oracles: private TMPDIR/GOTMPDIR empty afterwards (or retained),
+// user when possible.  Direct oracles: sentinel trees outside the work directories unchanged (names,
+// types, modes, times, contents), private TMPDIR/GOTMPDIR empty afterwards (or retained),
 // no recorded pid alive, each script's observations equal to those of the same script run alone,
 // the canary variable of the host invisible, $WORK equal to the archive at start, deferred
 // functions in reverse order on every exit path, no data race.  Correspondence: the observations
@@ -55,7 +56,17 @@ type runner struct {
 type aloneRes struct {
 	once  sync.Once
 	canon string
+	modes string
 	err   string
+}
+
+// canonModes: the permission bits a script saw in its work directory, at setup and at every probe.
+func canonModes(o *ScriptObs) string {
+	parts := []string{"setup{" + o.SetupModes + "}"}
+	for _, p := range o.Probes {
+		parts = append(parts, "probe{"+p.Modes+"}")
+	}
+	return strings.Join(parts, " ")
 }
 
 const nobodyID = 65534
@@ -161,6 +172,7 @@ type runObs struct {
 	alive     []string          // recorded pids that are still alive
 	escaped   []string          // $WORK-named archive entries found at the file-system root
 	hostLeak  []string          // PATH values with which the host-only program was run although they do not lead to it
+	outside   []string          // what changed in the sentinel trees outside the work directories (names, types, sizes, modes, times, contents)
 	isRoot    bool
 }
 
@@ -217,6 +229,10 @@ func procsUnder(dir string) []string {
 }
 
 func (rn *runner) runBatch(b *Batch, dl *DeadlineJob, sched []int) *runObs {
+	return rn.runJob(b, dl, nil, sched)
+}
+
+func (rn *runner) runJob(b *Batch, dl *DeadlineJob, cj *CleanJob, sched []int) *runObs {
 	n := rn.nrun.Add(1)
 	dir := filepath.Join(rn.work, fmt.Sprintf("run-%d", n))
 	ro := &runObs{dir: dir, finalTree: map[string]string{}}
@@ -235,6 +251,19 @@ func (rn *runner) runBatch(b *Batch, dl *DeadlineJob, sched []int) *runObs {
 		data, _ := os.ReadFile(rn.helper)
 		os.WriteFile(filepath.Join(dir, "bin", "hostcanary"), data, 0o755)
 	}
+	// sentinel trees outside every work directory: a "host" directory with files and directories of
+	// several modes (owned by the user the child runs as, so that nothing but good manners protects
+	// them), and the directory of the programs; they are compared with their snapshot after the run
+	owner := -1
+	if b.NonRoot && rn.nonRoot {
+		owner = nobodyID
+	}
+	makeHostSentinels(filepath.Join(dir, "host"), owner)
+	sentinels := []string{"host", "bin"}
+	before := map[string]map[string]string{}
+	for _, sd := range sentinels {
+		before[sd] = snapshotTree(filepath.Join(dir, sd))
+	}
 	// $WORK-named entries: nothing of that name may be at the root beforehand
 	var workNamed []string
 	for i := range b.Scripts {
@@ -249,6 +278,9 @@ func (rn *runner) runBatch(b *Batch, dl *DeadlineJob, sched []int) *runObs {
 	job := Job{Kind: "batch", Batch: *b, Dir: dir, Helper: helper, WorkRoot: filepath.Join(dir, "wroot"), Out: filepath.Join(dir, "obs", "result.json"), Deadline: dl}
 	if dl != nil {
 		job.Kind = "deadline"
+	}
+	if cj != nil {
+		job.Kind, job.Clean = "cleanup", cj
 	}
 	if sched != nil {
 		job.Gated, job.Sched = true, sched
@@ -381,6 +413,9 @@ func (rn *runner) runBatch(b *Batch, dl *DeadlineJob, sched []int) *runObs {
 			}
 		}
 	}
+	for _, sd := range sentinels {
+		ro.outside = append(ro.outside, diffSnapshots(sd, before[sd], snapshotTree(filepath.Join(dir, sd)))...)
+	}
 	ents, _ := os.ReadDir(filepath.Join(dir, "tmp"))
 	for _, e := range ents {
 		ro.tmpLeft = append(ro.tmpLeft, e.Name())
@@ -399,13 +434,103 @@ func (rn *runner) runBatch(b *Batch, dl *DeadlineJob, sched []int) *runObs {
 		}
 		if wd != "" {
 			if st, err := os.Stat(wd); err == nil && st.IsDir() {
-				ro.finalTree[name] = treeString(wd)
+				ro.finalTree[name] = treeStringIn(wd, wd, dir)
 			}
 		}
 	}
 	// nothing of this run survives
 	syscall.Kill(-cmd.Process.Pid, syscall.SIGKILL)
 	return ro
+}
+
+// makeHostSentinels creates the tree the scripts' links point to (hostSentinelSpec).
+func makeHostSentinels(host string, owner int) {
+	os.MkdirAll(host, 0o755)
+	buildTree(host, hostSentinelSpec, host, host, host)
+	os.Chmod(host, 0o755)
+	if owner >= 0 {
+		filepath.WalkDir(host, func(p string, d os.DirEntry, err error) error {
+			if err == nil {
+				os.Lchown(p, owner, owner)
+			}
+			return nil
+		})
+	}
+	// the times are a while ago, so that a touch shows
+	old := time.Now().Add(-90 * time.Minute).Truncate(time.Second)
+	filepath.WalkDir(host, func(p string, d os.DirEntry, err error) error {
+		if err == nil && d.Type()&os.ModeSymlink == 0 {
+			os.Chtimes(p, old, old)
+		}
+		return nil
+	})
+}
+
+// snapshotTree: for every entry below dir (dir itself is "."; links are not followed) its type,
+// permission bits, owner, size, modification time and content hash (or link target).
+func snapshotTree(dir string) map[string]string {
+	out := map[string]string{}
+	filepath.WalkDir(dir, func(p string, d os.DirEntry, err error) error {
+		rel, _ := filepath.Rel(dir, p)
+		if err != nil {
+			out[rel] = "unreadable"
+			return nil
+		}
+		info, err := os.Lstat(p)
+		if err != nil {
+			out[rel] = "unreadable"
+			return nil
+		}
+		uid := -1
+		if st, ok := info.Sys().(*syscall.Stat_t); ok {
+			uid = int(st.Uid)
+		}
+		desc := fmt.Sprintf("%s mode=%o uid=%d mtime=%d", typeName(info.Mode()), info.Mode()&(os.ModePerm|os.ModeSetuid|os.ModeSetgid|os.ModeSticky), uid, info.ModTime().UnixNano())
+		switch {
+		case info.Mode().IsRegular():
+			data, _ := os.ReadFile(p)
+			h := sha256.Sum256(data)
+			desc += fmt.Sprintf(" size=%d sha256=%s", info.Size(), hex.EncodeToString(h[:8]))
+		case info.Mode()&os.ModeSymlink != 0:
+			tg, _ := os.Readlink(p)
+			desc = fmt.Sprintf("link uid=%d -> %s", uid, tg) // mode and time of a link itself say nothing
+		}
+		out[rel] = desc
+		return nil
+	})
+	return out
+}
+
+func typeName(m os.FileMode) string {
+	switch {
+	case m.IsDir():
+		return "dir"
+	case m.IsRegular():
+		return "file"
+	case m&os.ModeSymlink != 0:
+		return "link"
+	}
+	return "other"
+}
+
+func diffSnapshots(what string, before, after map[string]string) []string {
+	var out []string
+	for rel, b := range before {
+		a, ok := after[rel]
+		switch {
+		case !ok:
+			out = append(out, fmt.Sprintf("$RUN/%s/%s is gone (was: %s)", what, rel, b))
+		case a != b:
+			out = append(out, fmt.Sprintf("$RUN/%s/%s was [%s] and is now [%s]", what, rel, b, a))
+		}
+	}
+	for rel, a := range after {
+		if _, ok := before[rel]; !ok {
+			out = append(out, fmt.Sprintf("$RUN/%s/%s has appeared (%s)", what, rel, a))
+		}
+	}
+	sort.Strings(out)
+	return out
 }
 
 // removeEscaped removes /<name> if it is a regular file with one of the harness's canary names and
@@ -609,7 +734,7 @@ func specKey(b *Batch) string {
 	return hex.EncodeToString(h[:8])
 }
 
-func (rn *runner) aloneCanon(b *Batch, i int) (string, string) {
+func (rn *runner) aloneCanon(b *Batch, i int) (string, string, string) {
 	one := *b
 	one.Scripts = []Script{b.Scripts[i]}
 	one.Scripts[0].DelayMs = 0
@@ -633,8 +758,9 @@ func (rn *runner) aloneCanon(b *Batch, i int) (string, string) {
 		name := one.Scripts[0].Name
 		ft, present := ro.finalTree[name]
 		ar.canon = canonScript(ro.res.Scripts[0], ro.dir, ft, present)
+		ar.modes = canonModes(ro.res.Scripts[0])
 	})
-	return ar.canon, ar.err
+	return ar.canon, ar.modes, ar.err
 }
 
 func tail(s string, n int) string {
@@ -697,6 +823,9 @@ func (rn *runner) evalBatch(b *Batch, withAlone bool, sched []int) ([]finding, *
 	}
 	if len(ro.hostLeak) > 0 {
 		add("impl-violation", "env/host-path", "a program that only the PATH of the test process leads to ($RUN/bin/hostcanary) was run by its bare name from a script whose PATH is "+strings.Join(ro.hostLeak, " | "), "", "")
+	}
+	if len(ro.outside) > 0 {
+		add("impl-violation", "outside/modified", "the run changed files outside the work directories of its scripts (the scripts only ever name them as targets of symbolic links they create inside their work directories): "+strings.Join(ro.outside, "; "), "", "")
 	}
 	if len(ro.escaped) > 0 {
 		add("impl-violation", "workdir/escape", "archive entries were unpacked outside the work directory of their script, at "+strings.Join(ro.escaped, ", "), "", "")
@@ -776,15 +905,15 @@ func (rn *runner) evalBatch(b *Batch, withAlone bool, sched []int) ([]finding, *
 		}
 	}
 	if withAlone {
-		type ar struct{ canon, err string }
+		type ar struct{ canon, modes, err string }
 		outs := make([]ar, len(b.Scripts))
 		var wg sync.WaitGroup
 		for i := range b.Scripts {
 			wg.Add(1)
 			go func(i int) {
 				defer wg.Done()
-				c, e := rn.aloneCanon(b, i)
-				outs[i] = ar{c, e}
+				c, m, e := rn.aloneCanon(b, i)
+				outs[i] = ar{c, m, e}
 			}(i)
 		}
 		wg.Wait()
@@ -795,6 +924,8 @@ func (rn *runner) evalBatch(b *Batch, withAlone bool, sched []int) ([]finding, *
 			}
 			if outs[i].canon != canon[i] {
 				add("impl-violation", "isolation/alone-differs", fmt.Sprintf("script %s behaves differently in the batch than alone", b.Scripts[i].Name), "alone: "+outs[i].canon, "batch: "+canon[i])
+			} else if m := canonModes(ro.res.Scripts[i]); m != outs[i].modes {
+				add("impl-violation", "isolation/modes-differ", fmt.Sprintf("script %s sees other permission bits on its own files in the batch than alone", b.Scripts[i].Name), "alone: "+outs[i].modes, "batch: "+m)
 			}
 		}
 	}
@@ -1052,6 +1183,27 @@ func parseSched(s string) []int {
 	return out
 }
 
+// loadCleanJob: the clean-up job of a replay file, if it holds one.
+func loadCleanJob(path string) *CleanJob {
+	data, err := os.ReadFile(path)
+	if err != nil {
+		return nil
+	}
+	var rp struct {
+		Violation struct {
+			Input map[string]string `json:"input"`
+		} `json:"violation"`
+	}
+	if json.Unmarshal(data, &rp) != nil || rp.Violation.Input["clean_job"] == "" {
+		return nil
+	}
+	var cj CleanJob
+	if json.Unmarshal([]byte(rp.Violation.Input["clean_job"]), &cj) != nil {
+		return nil
+	}
+	return &cj
+}
+
 // interleavings enumerates every merge of counts[i] turns of script i (at most limit of them).
 func interleavings(counts []int, limit int) [][]int {
 	var out [][]int
@@ -1105,15 +1257,41 @@ func dupNamesBatch() Batch {
 	return b
 }
 
+// linkPair: a makes links into b's work directory (to a read-only file, a read-only directory, the
+// directory itself), removes some of them with rm and is cleaned up; b looks at its own files before
+// and after.
+func linkPair() Batch {
+	a := Script{Name: "a", Files: []File{{Path: "a.txt", Data: "x\n"}}, Body: []Action{
+		{Op: "L", Path: "lnk0", Key: "sibling:b:ro0.txt"}, {Op: "M", Path: "x"}, {Op: "L", Path: "x/lnk1", Key: "sibling:b:ro"},
+		{Op: "L", Path: "x/lnk2", Key: "sibling:b"}, {Op: "R", Path: "x"}, {Op: "O"}}}
+	b := Script{Name: "b", Files: []File{{Path: "a.txt", Data: "y\n"}}, Body: []Action{
+		{Op: "Q", Path: "ro0.txt", Data: "mine\n"}, {Op: "M", Path: "ro", Flag: true}, {Op: "O"}, {Op: "O"}, {Op: "O"}}}
+	return Batch{Procs: 2, Par: 8, Canary: true, Scripts: []Script{a, b}}
+}
+
+func rep(i, n int) []int {
+	out := make([]int, n)
+	for k := range out {
+		out[k] = i
+	}
+	return out
+}
+
 type item struct {
 	b     Batch
 	tag   string
 	sched []int // nil: free-running
+	clean *CleanJob
 }
 
 func (rn *runner) mainC04() {
 	f, res := rn.f, rn.res
 	if f.Replay != "" {
+		if cj := loadCleanJob(f.Replay); cj != nil {
+			rn.oneCleanup(cj, "replay")
+			res.Rule = "replay of one recorded clean-up job"
+			return
+		}
 		b, sched, err := loadSpec(f.Replay)
 		if err != nil {
 			res.Notes = append(res.Notes, "cannot load replay: "+err.Error())
@@ -1127,12 +1305,12 @@ func (rn *runner) mainC04() {
 		return
 	}
 	var items []item
-	addB := func(b Batch, tag string) { items = append(items, item{b, tag, nil}) }
+	addB := func(b Batch, tag string) { items = append(items, item{b: b, tag: tag}) }
 	addG := func(b Batch, tag string, sched []int) {
 		if sched == nil {
 			sched = []int{}
 		}
-		items = append(items, item{b, tag, sched})
+		items = append(items, item{b: b, tag: tag, sched: sched})
 	}
 	// 1. corpus
 	if f.Corpus != "" {
@@ -1140,11 +1318,11 @@ func (rn *runner) mainC04() {
 		sort.Strings(ents)
 		for _, e := range ents {
 			if b, sched, err := loadSpec(e); err == nil {
-				items = append(items, item{*b, "corpus", sched})
+				items = append(items, item{b: *b, tag: "corpus", sched: sched})
 				if rn.nonRoot {
 					nb := *b
 					nb.NonRoot = !b.NonRoot
-					items = append(items, item{nb, "corpus", sched})
+					items = append(items, item{b: nb, tag: "corpus", sched: sched})
 				}
 			} else {
 				res.Notes = append(res.Notes, "corpus file skipped: "+err.Error())
@@ -1164,6 +1342,33 @@ func (rn *runner) mainC04() {
 	gp.Scripts[1].DelayMs = 0
 	for _, sc := range interleavings([]int{turns(&gp.Scripts[0]), turns(&gp.Scripts[1])}, 64) {
 		addG(gp, "gated-enumerated", sc)
+	}
+	// links from one script into the other's work directory, under schedules that put a's `rm` and a's
+	// clean-up between two looks of b at its own files
+	for k, retain := range []string{"", "", "testwork"} {
+		lp := linkPair()
+		lp.Retain, lp.NonRoot = retain, rn.nonRoot && k != 1
+		addB(lp, "hand-links")
+		addG(lp, "gated-links", append(append(rep(1, 3), rep(0, 7)...), rep(1, 3)...))
+		addG(lp, "gated-links", append(append(append(append(rep(1, 3), rep(0, 6)...), 1), 0), rep(1, 2)...))
+		addG(lp, "gated-links", append(rep(0, 7), rep(1, 6)...))
+		addG(lp, "gated-links", []int{0, 1, 0, 1, 0, 1, 0, 1, 0, 1, 0, 1, 0})
+	}
+	// clean-up jobs: trees with every kind of link, every way a script can end, with and without rm
+	for _, cj := range handCleanJobs(rn.nonRoot) {
+		cj := cj
+		items = append(items, item{tag: "cleanup-hand", clean: &cj})
+	}
+	{
+		rc := common.NewRNG(f.Seed ^ 0x5eed04)
+		nc := rn.size("TSBATCH_CLEAN_QUICK", 12)
+		if f.Tier == "thorough" {
+			nc = rn.size("TSBATCH_CLEAN_THOROUGH", 200)
+		}
+		for i := 0; i < nc; i++ {
+			cj := genCleanJob(rc, rn.nonRoot)
+			items = append(items, item{tag: "cleanup-generated", clean: &cj})
+		}
 	}
 	eb := escapeBatch()
 	addB(eb, "hand")
@@ -1280,7 +1485,9 @@ func (rn *runner) mainC04() {
 					skipped.Add(1)
 					continue
 				}
-				if len(items[i].b.Scripts) == 0 {
+				if items[i].clean != nil {
+					rn.oneCleanup(items[i].clean, items[i].tag)
+				} else if len(items[i].b.Scripts) == 0 {
 					rn.emptyBatch(&items[i].b)
 				} else {
 					rn.one(&items[i].b, items[i].tag, true, items[i].sched)
@@ -1296,7 +1503,7 @@ func (rn *runner) mainC04() {
 	if n := skipped.Load(); n > 0 {
 		res.Notes = append(res.Notes, fmt.Sprintf("%d batches were not run: three children had already hung and had to be killed", n))
 	}
-	res.Rule = fmt.Sprintf("corpus batches; the execCache pair in both start orders and, with the harness holding the turn (a T whose Parallel parks the subtest and a gate command before every script line), under all %d interleavings of its lines; the pair whose archive names files outside the work directory; RunT without any script; a hand-written batch covering every exit path (pass, fail, skip, stop, setup failure, panicking custom command, panicking deferred function) with defers, background processes and read-only directories under each retention mode, with and without ContinueOnError; then %d generated batches of 2-8 scripts (with kill / kill+wait, ContinueOnError, $WORK-named and escaping archive entries), each run free under three settings of GOMAXPROCS / subtest parallelism / start delays / verbosity and gated under a random and a sequential schedule, the model being asked for the same schedule; every script is also run alone; children built with -race, unprivileged when possible; a batch is non-trivial when some script has defers, background processes, probes or does not pass; distinct = distinct (retention, verdicts, defer orders, probe counts)",
+	res.Rule = fmt.Sprintf("before and after every run a snapshot (names, types, sizes, modes, owners, times, content hashes) of sentinel trees outside the work directories (a host directory with files and directories of several modes, owned by the user the child runs as; the directory of the helper programs) is compared; scripts create symbolic links (to host sentinels, to siblings' files and directories, dangling, into their own tree), read-only files and directories, and use rm; clean-up jobs: trees of directories, files and links of every kind (absolute, relative, chained, looping) built by Setup, the script ending passed / failed / skipped / stopped, with and without `rm <sub>`, a parallel sibling recording its own directory after the clean-up, everything observed compared with remove_all_now of TsCleanup.v; a pair of scripts with links into each other's directory under schedules that put `rm` and the clean-up of one between two looks of the other; corpus batches; the execCache pair in both start orders and, with the harness holding the turn (a T whose Parallel parks the subtest and a gate command before every script line), under all %d interleavings of its lines; the pair whose archive names files outside the work directory; RunT without any script; a hand-written batch covering every exit path (pass, fail, skip, stop, setup failure, panicking custom command, panicking deferred function) with defers, background processes and read-only directories under each retention mode, with and without ContinueOnError; then %d generated batches of 2-8 scripts (with kill / kill+wait, ContinueOnError, $WORK-named and escaping archive entries), each run free under three settings of GOMAXPROCS / subtest parallelism / start delays / verbosity and gated under a random and a sequential schedule, the model being asked for the same schedule; every script is also run alone; children built with -race, unprivileged when possible; a batch is non-trivial when some script has defers, background processes, probes or does not pass; distinct = distinct (retention, verdicts, defer orders, probe counts)",
 		len(interleavings([]int{turns(&gp.Scripts[0]), turns(&gp.Scripts[1])}, 64)), n)
 }
 
@@ -1343,8 +1550,16 @@ func (rn *runner) emptyBatch(b *Batch) {
 // read-only directory holding a file.
 func exitPathsBatch() Batch {
 	common := func(name string, tailActs ...Action) Script {
+		sib := "pass"
+		if name == "pass" {
+			sib = "fail"
+		}
 		body := []Action{
 			{Op: "D", ID: 1}, {Op: "M", Path: "ro/inner"}, {Op: "W", Path: "ro/inner/f", Data: "1"},
+			// links out of the work directory: to sentinels of the host and to a sibling's files
+			{Op: "Q", Path: "ro0.txt", Data: "ro\n"}, {Op: "L", Path: "lnk0", Key: "host-ro"}, {Op: "L", Path: "d/lnk2", Key: "host-rodir"},
+			{Op: "L", Path: "ro/inner/lnk3", Key: "sibling:" + sib + ":ro0.txt"}, {Op: "L", Path: "lnk1", Key: "sibling:" + sib + ":ro"},
+			{Op: "L", Path: "lnk4", Key: "dangling"}, {Op: "L", Path: "lnk5", Key: "host-dir"},
 			{Op: "M", Path: "ro/inner", Flag: true}, {Op: "M", Path: "ro", Flag: true},
 			{Op: "G", ID: 1, Flag: true}, {Op: "D", ID: 2}, {Op: "O"},
 		}
